@@ -76,7 +76,7 @@ let () =
   let b = Buffer.create 65536 in
   (try
      while true do
-       let line = input_line stdin in
+       let line = Stdlib.input_line Stdlib.stdin in
        if String.length line > 0 then begin
          let pos = ref 0 in
          let idx = (match parse line pos with A z -> z | L _ -> Z0) in
@@ -84,8 +84,8 @@ let () =
          Buffer.clear b;
          (try print b (run_model idx arg) with Stack_overflow -> Buffer.add_string b "-997");
          Buffer.add_char b '\n';
-         print_string (Buffer.contents b)
+         Stdlib.print_string (Buffer.contents b)
        end
      done
    with End_of_file -> ());
-  flush stdout
+  Stdlib.flush Stdlib.stdout
